@@ -39,13 +39,18 @@ var c02StabAlphabet = []string{"k-merge", "k-cleave", "k-splitsv", "k-rawmutate"
 	// o-*: edits in an OLDER sibling branch of C (created before C, left open: its version id is smaller than C's)
 	"o-kvedit", "o-lmedit", "o-annedit", "o-roiedit",
 	// neuron annotations: the branch head is served from an in-memory copy that commits and merges hand over
-	"k-njedit", "o-njedit"}
+	"k-njedit", "o-njedit",
+	// resolve: conflicts between two committed branch heads are removed in extension nodes and the heads are merged;
+	// data list [kv2, kv]; a: only kv conflicts (kv2 is listed first and has nothing to delete), b: both conflict;
+	// ks / sk: which parent has priority. The losing committed parent must read as before.
+	"resolve-a-ks", "resolve-a-sk", "resolve-b-ks", "resolve-b-sk"}
 
 func c02StabReads() map[string][]string {
 	return map[string][]string{
 		"lm": {"raw/0_1_2/32_32_16/0_0_0", "raw/0_1_2/32_32_16/0_0_0?supervoxels=true", "size/1", "size/2", "size/3", "size/4", "size/9", "size/100", "supervoxels/1", "supervoxels/2",
 			"sparsevol/1", "sparsevol/2", "sparsevol/3", "sparsevol-coarse/1", "label/20_4_4", "label/5_5_5", "label/20_20_4", "index/1", "index/2", "index/3", "listlabels", "supervoxel-splits", "maxlabel"},
 		"kv":  {"keys", "key/k1", "key/k2", "key/k3", "key/k4"},
+		"kv2": {"keys", "key/k1", "key/k2"},
 		"ann": {"all-elements", "tag/t1", "tag/t2", "elements/200_200_200/0_0_0"},
 		"roi": {"roi"},
 		"nj":  {"keys", "key/1", "key/2", "key/3", "all", "fields"},
@@ -55,7 +60,7 @@ func c02StabReads() map[string][]string {
 func c02StabSnap(uuid string) string {
 	var sb strings.Builder
 	reads := c02StabReads()
-	for _, inst := range []string{"lm", "kv", "ann", "roi", "nj"} {
+	for _, inst := range []string{"lm", "kv", "kv2", "ann", "roi", "nj"} {
 		for _, rd := range reads[inst] {
 			x := vsrv.Get("node/" + uuid + "/" + inst + "/" + rd)
 			if inst == "nj" && rd != "fields" {
@@ -103,6 +108,8 @@ func c02StabWorker(args []string) int {
 		vsrv.NewInstance(root, "annotation", "ann", nil)
 		vsrv.NewInstance(root, "roi", "roi", map[string]string{"BlockSize": "4,4,4"})
 		vsrv.NewInstance(root, "keyvalue", "doomed", nil)
+		vsrv.NewInstance(root, "keyvalue", "kv2", nil)
+		vsrv.PostS("node/"+root+"/kv2/key/k1", "r1")
 		vsrv.NewInstance(root, "neuronjson", "nj", nil)
 		vsrv.PostS("node/"+root+"/nj/key/1?u=t", `{"bodyid":1,"a":"r"}`)
 		vsrv.PostS("node/"+root+"/nj/key/2?u=t", `{"bodyid":2,"a":"r"}`)
@@ -236,6 +243,26 @@ func c02StabWorker(args []string) int {
 				vsrv.Delete("node/" + u + "/nj/key/2?u=t")
 			case "o-roiedit":
 				vsrv.PostS("node/"+O+"/roi/roi", "[[5,5,5,6]]")
+			case "resolve-a-ks", "resolve-a-sk", "resolve-b-ks", "resolve-b-sk":
+				k, sb := getK(), getS()
+				vsrv.PostS("node/"+k+"/kv/key/k2", "k-side")
+				vsrv.PostS("node/"+sb+"/kv/key/k2", "s-side")
+				if strings.HasPrefix(op, "resolve-b") {
+					vsrv.PostS("node/"+k+"/kv2/key/k2", "k-side")
+					vsrv.PostS("node/"+sb+"/kv2/key/k2", "s-side")
+				}
+				commitLater(k, op)
+				commitLater(sb, op)
+				parents := []string{k, sb}
+				if strings.HasSuffix(op, "-sk") {
+					parents = []string{sb, k}
+				}
+				r := vsrv.PostS("repo/"+root+"/resolve", fmt.Sprintf(`{"data":["kv2","kv"],"parents":[%q,%q],"note":"resolved"}`, parents[0], parents[1]))
+				note(r, op)
+				var out struct{ Child string }
+				if json.Unmarshal(r.Body, &out) == nil && out.Child != "" {
+					K, S = out.Child, ""
+				}
 			}
 			vsrv.Settle(O, "lm", "ann")
 			if K != "" {
